@@ -41,6 +41,10 @@ pub struct Story {
     pub(crate) allow_external_function_fallbacks: bool,
     pub(crate) saw_lookahead_unsafe_function_after_new_line: bool,
     pub(crate) externals: HashMap<String, ExternalFunctionDef>,
+    #[cfg(feature = "verif-hooks")]
+    pub(crate) verif_fuel: Option<u64>,
+    #[cfg(feature = "verif-hooks")]
+    pub(crate) verif_async_step_budget: Option<u32>,
 }
 mod misc {
     use crate::{
@@ -82,6 +86,10 @@ mod misc {
                 has_validated_externals: false,
                 allow_external_function_fallbacks: false,
                 externals: HashMap::with_capacity(0),
+                #[cfg(feature = "verif-hooks")]
+                verif_fuel: None,
+                #[cfg(feature = "verif-hooks")]
+                verif_async_step_budget: None,
             };
 
             story.reset_globals()?;
@@ -192,3 +200,5 @@ mod progress;
 mod state;
 mod tags;
 pub mod variable_observer;
+#[cfg(feature = "verif-hooks")]
+pub mod verif_hooks;
